@@ -69,6 +69,9 @@ func TestC18Pair(t *testing.T) {
 		if kind >= 5 && r.chance(25) {
 			fee0 = z
 		}
+		if ci == 0 {
+			fee0 = sdk.MustNewDecFromStr("0.02")
+		}
 		type op struct {
 			k     string
 			a, b  int64
